@@ -409,6 +409,7 @@ def run_case(case, ctx):
     elif kind == "codec":
         ident, NameID = _imports()[:2]
         seen = {}
+        seen_b = {}
         for i in range(case["n"]):
             f = tuple((hostile_field(rng) if rng.random() < 0.8 else None) for _ in range(5))
             nid = NameID(name_qualifier=f[0], sp_name_qualifier=f[1], format=f[2], sp_provided_id=f[3], text=f[4])
@@ -425,6 +426,30 @@ def run_case(case, ctx):
                 viols.append({"key": "C18/code-collision", "what": "%r and %r both code to %r" % (seen[c], f, c)})
                 break
             seen[c] = tuple(x or None for x in f)
+            # every form of the encoding that is used as a storage key (code_binary feeds the key of the IdP's session store)
+            cb = ident.code_binary(nid)
+            counters["binary_codes"] = counters.get("binary_codes", 0) + 1
+            if cb in seen_b and seen_b[cb] != tuple(x or None for x in f):
+                viols.append({"key": "C18/code-collision", "what": "code_binary: %r and %r both give %r" % (seen_b[cb], f, cb)})
+                break
+            seen_b[cb] = tuple(x or None for x in f)
+            if i % 4 == 0:
+                # a pair built to collide under any encoding that writes the fields as "<index>=<value>" joined by commas without quoting:
+                # fields (.., j: y + ",k=" + z) versus (.., j: y, k: z)
+                j, k = sorted(rng.sample(range(5), 2))
+                y, z = gen.word(rng, 1, 4), gen.word(rng, 1, 4)
+                g1 = [None] * 5
+                g2 = [None] * 5
+                g1[j] = y + ",%d=" % k + z
+                g2[j], g2[k] = y, z
+                pair = []
+                for g in (g1, g2):
+                    n2 = NameID(name_qualifier=g[0], sp_name_qualifier=g[1], format=g[2], sp_provided_id=g[3], text=g[4])
+                    pair.append((ident.code(n2), ident.code_binary(n2)))
+                counters["adversarial_pairs"] = counters.get("adversarial_pairs", 0) + 1
+                if pair[0][0] == pair[1][0] or pair[0][1] == pair[1][1]:
+                    viols.append({"key": "C18/code-collision", "what": "%r and %r: code %r / %r, code_binary %r / %r" % (g1, g2, pair[0][0], pair[1][0], pair[0][1], pair[1][1])})
+                    break
         sigs.add(("codec", case["k"]))
         counters["histories"] = 1
     elif kind == "hostile-store":
